@@ -165,8 +165,9 @@ Lemma view_host_port v6ok e h p : host_view v6ok e h p ->
   host_port e = match p with Some p => p | None => if str_eqb (e_scheme e) s_https then s_443 else s_80 end.
 Proof.
   intros H. destruct (view_split _ _ _ _ H) as [_ H2]. unfold host_port.
-  destruct H as [_ [_ [Hhdr|[Hnone [_ [_ Hsp]]]]]].
-  - rewrite Hhdr in *. rewrite H2. reflexivity.
+  destruct H as [_ [Hpo [Hhdr|[Hnone [_ [_ Hsp]]]]]].
+  - rewrite Hhdr in *. rewrite H2. cbn [snd]. destruct p as [[|c p']|]; try reflexivity.
+    destruct Hpo as [Hne _]. contradiction.
   - rewrite Hnone. subst p. reflexivity.
 Qed.
 
@@ -404,4 +405,35 @@ Proof.
         rewrite partition_c_app by reflexivity.
         rewrite partition_c_app by exact A93. reflexivity. }
       rewrite Hok. reflexivity.
+Qed.
+
+(* ------------------------------------------------------------------ "Host: name:" — an empty port is no port *)
+Lemma split_host_port_empty v6ok h : hs_ok v6ok h -> split_host_port (hs_text h ++ [58]) = (hs_text h, Some []).
+Proof.
+  intros Hh. unfold split_host_port, has_port. rewrite mem_n_app. cbn [mem_n]. rewrite N.eqb_refl, orb_true_r.
+  rewrite last_app_ne by discriminate. cbn [last N.eqb Pos.eqb negb andb].
+  rewrite rsplit_colon_app by reflexivity. reflexivity.
+Qed.
+
+Definition with_host (e : environ) (hh : str) : environ :=
+  mkEnv (e_scheme e) (Some hh) (e_server_name e) (e_server_port e) (e_script e) (e_path e) (e_query e) (e_enc e).
+
+Theorem empty_port_equiv v6ok e h : hs_ok v6ok h ->
+  let e1 := with_host e (hs_text h ++ [58]) in
+  let e0 := with_host e (hs_text h) in
+  host_port e1 = host_port e0 /\ domain e1 = domain e0 /\ host_url e1 = host_url e0 /\
+  application_url e1 = application_url e0 /\ path_url e1 = path_url e0 /\ url e1 = url e0 /\
+  path e1 = path e0 /\ path_qs e1 = path_qs e0.
+Proof.
+  intros Hh. cbv zeta.
+  assert (S1 := split_host_port_empty v6ok h Hh).
+  assert (S0 : split_host_port (hs_text h) = (hs_text h, None)).
+  { unfold split_host_port. rewrite (has_port_hs v6ok h Hh). reflexivity. }
+  assert (Hu : host_url (with_host e (hs_text h ++ [58])) = host_url (with_host e (hs_text h))).
+  { unfold host_url, with_host. cbn [e_http_host e_scheme]. rewrite S1, S0. unfold elide_default.
+    destruct (str_eqb (e_scheme e) s_https); [reflexivity|]. destruct (str_eqb (e_scheme e) s_http); reflexivity. }
+  split; [unfold host_port, with_host; cbn [e_http_host e_scheme]; rewrite S1, S0; reflexivity|].
+  split; [unfold domain, host, with_host; cbn [e_http_host]; rewrite S1, S0; reflexivity|].
+  split; [exact Hu|].
+  unfold url, path_qs, path_url, application_url. rewrite Hu. repeat split; reflexivity.
 Qed.
